@@ -162,26 +162,8 @@ def matchPhases : List (List Char) → List Char → Bool
   | [], ks => ks.isEmpty
   | ph :: phs, ks => matchPhases phs (ks.dropWhile (fun c => ph.contains c))
 
-def phasesOf (cmd : String) : Option (List (List Char)) :=
-  match cmd with
-  | "backup" => some [['P', 'I'], ['S']]
-  | "merge" => some [['P', 'I'], ['S'], ['s']]
-  | "copy" => some [['P', 'I'], ['S']]
-  | "rewrite" => some [['P', 'I'], ['S'], ['s']]
-  | "repairsnap" => some [['P', 'I'], ['S'], ['s']]
-  | "forget" => some [['s']]
-  | "prune" => some [['P', 'I'], ['i'], ['p']]
-  | "prune-instant" => some [['p'], ['P', 'I'], ['i'], ['p']]
-  -- `early_delete_index` without `instant_delete` is inert: the order of plain prune
-  | "prune-early" => some [['P', 'I'], ['i'], ['p']]
-  | "repairidx" => some [['I'], ['i']]
-  | "repairidx-readall" => some [['I'], ['i']]
-  | "config" => some [['O']]
-  | "key" => some [['O']]
-  | _ => none
-
-/-! ### the storage operations of `prune_repository` (`commands/prune.rs`) as a function of the two options that move the
-removal of the rebuilt index files -/
+/-! ### the storage operations of `prune_repository` (`commands/prune.rs`) as a function of the two options that move
+removals -/
 
 /-- `PruneOptions::{instant_delete, early_delete_index}` -/
 structure PruneFlags where
@@ -199,5 +181,34 @@ the pack removals.  `ps` / `idx` = what the repack writes, `rmIdx` = `indexes_re
 def pruneOpsOpt (f : PruneFlags) (ps : List Pack) (idx : IndexFile) (rmIdx rmPacks : List Nat) : List Op :=
   (if f.early then rmIdx.map Op.removeIndex else []) ++ ps.map Op.writePack ++ [Op.writeIndex idx] ++
   (if f.early then [] else rmIdx.map Op.removeIndex) ++ rmPacks.map Op.removePack
+
+/-- all of `prune_repository`: before the tail, the stored packs no index file knows (`prune_plan.existing_packs`) are removed
+at once with `instant_delete` (without it they are only marked: entries of the new index file's `packs_to_delete`). -/
+def pruneOpsFull (f : PruneFlags) (unindexed : List Nat) (ps : List Pack) (idx : IndexFile) (rmIdx rmPacks : List Nat) :
+    List Op :=
+  (if f.instantDelete then unindexed.map Op.removePack else []) ++ pruneOpsOpt f ps idx rmIdx rmPacks
+
+/-- the phase language the trace monitor holds a prune run against, from the same two conditions -/
+def prunePhases (f : PruneFlags) : List (List Char) :=
+  (if f.instantDelete then [['p']] else []) ++ (if f.early then [['i']] else []) ++ [['P', 'I']] ++
+  (if f.early then [] else [['i']]) ++ [['p']]
+
+def phasesOf (cmd : String) : Option (List (List Char)) :=
+  match cmd with
+  | "backup" => some [['P', 'I'], ['S']]
+  | "merge" => some [['P', 'I'], ['S'], ['s']]
+  | "copy" => some [['P', 'I'], ['S']]
+  | "rewrite" => some [['P', 'I'], ['S'], ['s']]
+  | "repairsnap" => some [['P', 'I'], ['S'], ['s']]
+  | "forget" => some [['s']]
+  | "prune" => some (prunePhases ⟨false, false⟩)
+  | "prune-instant" => some (prunePhases ⟨true, false⟩)
+  -- `early_delete_index` without `instant_delete` is inert: the order of plain prune
+  | "prune-early" => some (prunePhases ⟨false, true⟩)
+  | "repairidx" => some [['I'], ['i']]
+  | "repairidx-readall" => some [['I'], ['i']]
+  | "config" => some [['O']]
+  | "key" => some [['O']]
+  | _ => none
 
 end Rustic.Repo
